@@ -670,6 +670,10 @@ def invalid_mode_stream(ctx):
 
 
 def run(ctx):
+    from .. import tie
+
+    # translation tie: Lean definitions regenerated from /repo's source + equality theorems with the model
+    ctx.tie = tie.run_tie(ctx, tie.FUNCTIONS["C13"])
     import symmray as sr  # noqa
     from symmray.linalg import calc_sub_max_bonds
 
